@@ -41,7 +41,7 @@ BoolGateEv ==
   \* typed target: accepted iff the return type is exactly bool.  A pointer from the unchecked macros
   \* carries no type: it is never accepted for a function that does not return bool (whether a bool
   \* function reached through it is accepted is not judged)
-  /\ Req("C10", Ev.form = "typed" => (Ev.verdict = IF BoolAccepts(Ev.fam.tokens) THEN "accepted" ELSE "refused"))
+  /\ Req("C10", Ev.form \in {"typed", "typed-unwinding"} => (Ev.verdict = IF BoolAccepts(Ev.fam.tokens) THEN "accepted" ELSE "refused"))
   /\ Req("C10", (Ev.form = "unchecked" /\ ~Ev.fam.is_bool) => Ev.verdict = "refused")
   /\ Req("C10", Ev.verdict = "refused" => (Ev.cls = "bool-gate" /\ ~Ev.touched))
   /\ Req("C10", (Ev.verdict = "accepted" /\ Ev.fam.is_bool) => Ev.works = TRUE)
